@@ -7,9 +7,8 @@ import vlib
 from checks import codeccommon as K
 
 PROOF_MODULES = []
-OBLIGATIONS_FINAL = ["C19/P_decode_encode.v", "C19/P_decode_encode_tree.v", "C19/P_sharing_restored.v",
-               "C19/P_node_roundtrip.v", "C19/P_complexdouble_refuted.v", "C19/P_dense_roundtrip.v", "C19/P_nonvacuous.v"]
-OBLIGATIONS = []
+OBLIGATIONS = ["C19/P_decode_encode.v", "C19/P_decode_encode_tree.v", "C19/P_sharing_restored.v",
+               "C19/P_node_roundtrip.v", "C19/P_dense_roundtrip.v", "C19/P_nonvacuous.v"]
 
 
 NAN_RE = re.compile(r"\b[7f]ff[0-9a-f]{13}\b")
@@ -227,7 +226,7 @@ def matrices(ctx, drv, model, n):
         if mp[0] == "EXN:99":
             continue
         got = " ;; ".join(K.canon(d) for d in mp[2].split(" ;; ")) if len(mp) > 2 and mp[2] else ""
-        if mp[0] != "OK" or mp[1].split() != c.split()[1:3] or got != want:
+        if mp[0] != "OK" or mp[1].split() != c.split()[1:3] or got != want or (len(mp) > 3 and mp[3] != "REENC=1"):
             nd += 1
             if nd <= 2:
                 ctx.broken.append({"kind": "correspondence", "name": "C19 decode_matrix_model(dumps_impl)",
